@@ -351,10 +351,16 @@ func (sel *Selection) beginEdit(r NodeRequest, bubble bool) error {
 	if err := sel.Browser.Triggers.beginEdit(r); err != nil {
 		return err
 	}
+	var begun []NodeRequest
 	for {
 		if err := r.Selection.Node.BeginEdit(r); err != nil {
+			// nodes that were told the edit begins are told it ended, it is not going to happen
+			for i := len(begun) - 1; i >= 0; i-- {
+				begun[i].Selection.Node.EndEdit(begun[i])
+			}
 			return err
 		}
+		begun = append(begun, r)
 		if r.Selection.parent == nil || !bubble {
 			break
 		}
@@ -366,15 +372,20 @@ func (sel *Selection) beginEdit(r NodeRequest, bubble bool) error {
 
 func (sel *Selection) endEdit(r NodeRequest, bubble bool) error {
 	r.Selection = sel
+	var firstErr error
 	for {
-		if err := r.Selection.Node.EndEdit(r); err != nil {
-			return err
+		// every node that was told the edit begins is told it ended, also when one of them fails
+		if err := r.Selection.Node.EndEdit(r); err != nil && firstErr == nil {
+			firstErr = err
 		}
 		if r.Selection.parent == nil || !bubble {
 			break
 		}
 		r.Selection = r.Selection.parent
 		r.EditRoot = false
+	}
+	if firstErr != nil {
+		return firstErr
 	}
 	if err := sel.Browser.Triggers.endEdit(r); err != nil {
 		return err
